@@ -244,9 +244,34 @@ func c13Refresh(c *core.Ctx, pkg *packages.Package, class map[string]string) {
 			return true
 		})
 		sort.Strings(refreshed)
+		// the refresh is unconditional: every copy and the write-back execute on every path of one iteration
+		{
+			g := fn.Graph()
+			h, b, _ := g.LoopBlocks(loop)
+			var locs []an.Loc
+			ast.Inspect(loop.Body, func(n ast.Node) bool {
+				if as, isA := n.(*ast.AssignStmt); isA && len(as.Lhs) == 1 {
+					if sel, isSel := as.Lhs[0].(*ast.SelectorExpr); isSel && fn.Canon(sel.X) == "each("+fn.Canon(loop.X)+")" {
+						locs = append(locs, g.Locate(as))
+					}
+					if ix, isIx := as.Lhs[0].(*ast.IndexExpr); isIx && fn.Canon(ix.X) == fn.Canon(loop.X) {
+						locs = append(locs, g.Locate(as))
+					}
+				}
+				return true
+			})
+			if b != nil && len(locs) > 0 {
+				ex := g.Exec(an.Loc{B: b, I: 0}, locs, func(ast.Expr, an.Store) an.Tri { return an.U }, an.ExecOpts{Header: h})
+				for i := range locs {
+					if !ex.Must[i] {
+						ok = false
+					}
+				}
+			}
+		}
 		// the refresh must run on every path that returns the cached subring other than the ring itself
 		c.Check(ok && wroteBack && strings.Join(refreshed, ",") == strings.Join(vol, ","), "R1", "refresh:func="+name, loop.Pos(),
-			fmt.Sprintf("fields refreshed from the parent ring into the cached subring (%s) = %v; volatile fields of RingCompare = %v; copied from the same-named field of the parent's entry=%v; written back=%v", cachedBase, refreshed, vol, ok, wroteBack), len(refreshed))
+			fmt.Sprintf("fields refreshed from the parent ring into the cached subring (%s) = %v; volatile fields of RingCompare = %v; copied unconditionally from the same-named field of the parent's entry=%v; written back=%v", cachedBase, refreshed, vol, ok, wroteBack), len(refreshed))
 	}
 }
 
